@@ -590,16 +590,7 @@ Definition compile_case (x : sx) : sx :=
   end.
 
 (* ---------- from compiler output to a VM program ---------- *)
-(* UTF-8 encoding of a code point (Go string constants are byte strings);
-   values >= 0x110000 stand for raw bytes (Base conventions) *)
-Definition utf8_cp (c : N) : list N :=
-  (if c <? 128 then [c]
-   else if c <? 2048 then [192 + c / 64; 128 + c mod 64]
-   else if c <? 65536 then [224 + c / 4096; 128 + (c / 64) mod 64; 128 + c mod 64]
-   else if c <? 1114112 then [240 + c / 262144; 128 + (c / 4096) mod 64; 128 + (c / 64) mod 64; 128 + c mod 64]
-   else [(c - 1114112) mod 256])%N.
-Definition utf8_encode (s : str) : list N := flat_map utf8_cp s.
-
+(* (utf8_encode: Vm.v) *)
 Definition const_value (k : cconst) : value :=
   match k with KNum f => VNum f | KStr s => VStr (utf8_encode s) end.
 
